@@ -124,7 +124,7 @@ func tokFlagSets(r *Run) []uint {
 }
 
 func tokSpaces(r *Run) []space {
-	sig := []byte("a \r\n;&=\",\\?@")
+	sig := []byte("a \r\n;&=\",\\?@%4")
 	L := r.pick(5, 6)
 	var cfgs []Cfg
 	for _, f := range tokFlagSets(r) {
@@ -132,13 +132,13 @@ func tokSpaces(r *Run) []space {
 	}
 	cfgs = append(cfgs, Cfg{Flags: uint(sipsp.POptTokSpTermF), Offs: 5, Junk: "a", HdrCap: -1, ValCap: -1})
 	return []space{{name: "tokparam/bytes", gen: byteTrie{sig, L}, cfgs: cfgs, beyondErr: 2, beyondOk: 2, split: 2},
-		{name: "tokparam/frags", gen: seqTrie{Menu: bs("branch", "=", "z9hG4bK", ";", " ", "\r\n ", "\"q\\\"\"", "lr", "&", ","), K: r.pick(5, 6), Term: append(bs("?", " x", ",x"), hdrEnds...)},
+		{name: "tokparam/frags", gen: seqTrie{Menu: bs("branch", "=", "z9hG4bK", ";", " ", "\r\n ", "\"q\\\"\"", "lr", "&", ",", "%", "4"), K: r.pick(5, 6), Term: append(bs("?", " x", ",x"), hdrEnds...)},
 			cfgs: []Cfg{{Flags: uint(sipsp.POptTokSpTermF), HdrCap: -1, ValCap: -1}, {Flags: uint(sipsp.POptTokCommaTermF | sipsp.POptParamSemiSepF), HdrCap: -1, ValCap: -1},
 				{Flags: uint(sipsp.POptTokURIParamF), HdrCap: -1, ValCap: -1}, {Flags: uint(sipsp.POptTokURIHdrF), HdrCap: -1, ValCap: -1}}, beyondErr: 2, beyondOk: 1, split: 2}}
 }
 
 func uriListSpaces(r *Run, hdrs bool) []space {
-	sig := []byte("a;&=? \r\n\"")
+	sig := []byte("a;&=? \r\n\"%4")
 	L := r.pick(6, 8)
 	flagsets := []uint{0, uint(sipsp.POptTokQmTermF), uint(sipsp.POptTokSpTermF), uint(sipsp.POptTokCommaTermF)}
 	if hdrs {
@@ -156,7 +156,7 @@ func uriListSpaces(r *Run, hdrs bool) []space {
 		}
 	}
 	cfgs = append(cfgs, Cfg{Flags: flagsets[0], ValCap: 2, HdrCap: -1, Offs: 5, Junk: "a"})
-	menu := bs("transport", "=", "udp", ";", "&", "lr", "TTL", "1", " ", "\r\n ", "\"q\"", "maddr", "x")
+	menu := bs("transport", "=", "udp", ";", "&", "lr", "TTL", "1", " ", "\r\n ", "\"q\"", "maddr", "x", "%", "4")
 	return []space{{name: "urilist/bytes", gen: byteTrie{sig, L}, cfgs: cfgs, beyondErr: 2, beyondOk: 2, split: 2, finalFlags: []uint{uint(sipsp.POptInputEndF)}},
 		{name: "urilist/frags", gen: seqTrie{Menu: menu, K: r.pick(4, 5), Term: append(bs("?", " x", ","), hdrEnds...)}, cfgs: cfgs[:3], beyondErr: 2, beyondOk: 1, split: 2,
 			finalFlags: []uint{uint(sipsp.POptInputEndF)}}}
@@ -196,6 +196,8 @@ var hdrLineMenuFull = []string{
 	"m: <sip:a@b>;expires=30, sip:c@d;q=0.7\r\n",
 	"Contact: \"x\" <sip:a@b>\r\n ,\r\n <sip:e@f>;expires=5\r\n",
 	"Contact: *\r\n",
+	"Contact: * \r\n",
+	"m: *\r\n\t\r\n",
 	"Contact: <sip:z@y>;q=1;expires=7200\r\n",
 	"P-Asserted-Identity: <sip:p@q>\r\n",
 	"P-Asserted-Identity: <sip:p@q>, <tel:+1>, n <sip:r@s>\r\n",
@@ -244,6 +246,7 @@ var hdrLineMenuQuick = []string{
 	"m: <sip:a@b>;expires=30, sip:c@d;q=0.7\r\n",
 	"Contact: \"x\" <sip:a@b>\r\n ,\r\n <sip:e@f>;expires=5\r\n",
 	"Contact: *\r\n",
+	"m: * \r\n",
 	"P-Asserted-Identity: <sip:p@q>, <tel:+1>, n <sip:r@s>\r\n",
 	"Expires: 60\r\n",
 	"Expires: 4294967295\r\n",
